@@ -18,9 +18,24 @@ import itertools
 import random
 
 
+def _lab(x):
+    """JSON label -> hashable msdm label (lists become tuples)"""
+    return tuple(_lab(y) for y in x) if isinstance(x, list) else x
+
+
 def build_pomdp(c):
+    """c: generated case (dense arrays over generator indices, optional labels for states / actions /
+    observations), or a bundled domain ("domain": tiger / heavenorhell)"""
     from msdm.core.pomdp import TabularPOMDP
     from msdm.core.distributions import DictDistribution
+    if "domain" in c:
+        if c["domain"] == "tiger":
+            from msdm.domains.tiger import Tiger
+            return Tiger(coherence=fl(c["coherence"]), discount_rate=fl(c["gamma"]))
+        if c["domain"] == "heavenorhell":
+            from msdm.domains.heavenorhell import HeavenOrHell
+            return HeavenOrHell(coherence=fl(c["coherence"]), discount_rate=fl(c["gamma"]), grid=c["grid"])
+        raise ValueError("unknown domain")
     nS, nA, nO = c["nS"], c["nA"], c["nO"]
     T = [[[fl(x) for x in row] for row in sa] for sa in c["T"]]
     Rw = [[[fl(x) for x in row] for row in sa] for sa in c["Rw"]]
@@ -28,40 +43,107 @@ def build_pomdp(c):
     s0 = [fl(x) for x in c["s0"]]
     absorbing = list(c["absorbing"])
     gamma = fl(c["gamma"])
+    if c.get("gamma_int") and gamma == int(gamma):
+        gamma = int(gamma)          # discount passed as a Python int (0)
+    labs = c.get("labels") or {}
+    ls = [_lab(x) for x in labs.get("s", list(range(nS)))]
+    la = [_lab(x) for x in labs.get("a", list(range(nA)))]
+    lo = [_lab(x) for x in labs.get("o", list(range(nO)))]
+    si = {x: i for i, x in enumerate(ls)}
+    ai = {x: i for i, x in enumerate(la)}
+    assert len(si) == nS and len(ai) == nA and len(set(lo)) == nO
 
     class GenPOMDP(TabularPOMDP):
         discount_rate = gamma
 
         def initial_state_dist(self):
-            return DictDistribution({s: p for s, p in enumerate(s0) if p > 0})
+            return DictDistribution({ls[s]: p for s, p in enumerate(s0) if p > 0})
 
         def actions(self, s):
-            return tuple(range(nA))
+            return tuple(la)
 
         def next_state_dist(self, s, a):
-            return DictDistribution({t: p for t, p in enumerate(T[s][a]) if p > 0})
+            return DictDistribution({ls[t]: p for t, p in enumerate(T[si[s]][ai[a]]) if p > 0})
 
         def reward(self, s, a, ns):
-            return Rw[s][a][ns]
+            return Rw[si[s]][ai[a]][si[ns]]
 
         def is_absorbing(self, s):
-            return absorbing[s]
+            return absorbing[si[s]]
 
         def observation_dist(self, a, ns):
-            return DictDistribution({o: p for o, p in enumerate(Ob[a][ns]) if p > 0})
+            return DictDistribution({lo[o]: p for o, p in enumerate(Ob[ai[a]][si[ns]]) if p > 0})
 
     pomdp = GenPOMDP()
     if c.get("explicit_lists"):
-        # explicit lists: states unreachable from the initial distribution stay in the model
-        pomdp._state_list = tuple(range(nS))
-        pomdp._action_list = tuple(range(nA))
+        # explicit lists (in generator order, which need not be the sorted order of the labels):
+        # states unreachable from the initial distribution stay in the model
+        pomdp._state_list = tuple(ls)
+        pomdp._action_list = tuple(la)
+    pomdp._gen_index = ({x: i for i, x in enumerate(ls)}, {x: i for i, x in enumerate(la)}, {x: i for i, x in enumerate(lo)})
     return pomdp
 
 
 def lists(pomdp):
-    return {"state_list": list(pomdp.state_list), "action_list": list(pomdp.action_list),
-            "observation_list": list(pomdp.observation_list),
-            "shape": list(pomdp.observation_matrix.shape)}
+    out = {"shape": list(pomdp.observation_matrix.shape)}
+    gi = getattr(pomdp, "_gen_index", None)
+    if gi is not None:
+        out["state_list"] = [gi[0][s] for s in pomdp.state_list]
+        out["action_list"] = [gi[1][a] for a in pomdp.action_list]
+        out["observation_list"] = [gi[2][o] for o in pomdp.observation_list]
+    else:
+        # bundled domain: the model is built from the matrices msdm exposes (position space)
+        out["matrices"] = {"T": fjn(pomdp.transition_matrix), "Rw": fjn(pomdp.reward_matrix),
+                           "Ob": fjn(pomdp.observation_matrix),
+                           "absorbing": [bool(pomdp.is_absorbing(s)) for s in pomdp.state_list],
+                           "s0": fjn(pomdp.initial_state_vec)}
+    return out
+
+
+def traj_out(pomdp, tr, s0_label):
+    """run_on trajectory in position space (indices into msdm's lists)"""
+    sl, al, ol = list(pomdp.state_list), list(pomdp.action_list), list(pomdp.observation_list)
+    steps_out = []
+    for st in tr:
+        steps_out.append({"s": sl.index(st.state), "a": al.index(st.action) if st.action is not None else None,
+                          "ns": sl.index(st.nextstate) if st.nextstate is not None else None,
+                          "r": fj(st.reward) if st.reward is not None else None,
+                          "o": ol.index(st.observation) if st.observation is not None else None,
+                          "ag": fjn(_np(st.agentstate)),
+                          "nag": fjn(_np(st.nextagentstate)) if st.nextagentstate is not None else None})
+    return {"s0": sl.index(s0_label) if s0_label is not None else None, "steps": steps_out}
+
+
+def _np(x):
+    import numpy as np
+    return x.detach().double().numpy() if hasattr(x, "detach") else np.asarray(x, dtype=float)
+
+
+def do_runs(pomdp, ctrl, c, nodes):
+    """real executions: initial state given / sampled, initial agent state default / given, step caps 0, 1, n"""
+    import numpy as np
+    trajs = []
+    sl = list(pomdp.state_list)
+    caps = [int(c.get("max_steps", 6)), 0, 1, int(c.get("max_steps", 6))]
+    for k in range(int(c.get("runs", 3))):
+        rng = random.Random(1000 * int(c.get("run_seed", 0)) + k)
+        cap = caps[k % len(caps)]
+        kw = {}
+        s0 = sl[(k + int(c.get("run_seed", 0))) % len(sl)]
+        if k == 3:
+            s0 = None                      # initial state sampled by run_on itself
+        else:
+            kw["initial_state"] = s0
+        ag0 = None
+        if k == 2 and not hasattr(ctrl.action_strategy, "detach"):
+            ag0 = np.zeros(nodes); ag0[nodes - 1] = 1.0     # explicit initial agent state (last node, one-hot)
+            kw["initial_agentstate"] = ag0
+        tr = ctrl.run_on(pomdp, max_steps=cap, rng=rng, **kw)
+        o = traj_out(pomdp, tr, s0)
+        o["max_steps"] = cap
+        o["ag0"] = fjn(ag0) if ag0 is not None else None
+        trajs.append(o)
+    return trajs
 
 
 def arr(x):
@@ -133,30 +215,35 @@ def run_eval(c):
         if isinstance(e, (KeyboardInterrupt, SystemExit)):
             raise
         out["hist"] = {"error": type(e).__name__ + ": " + str(e)[:300]}
-    # a few real executions (episode convention of run_on)
+    # the same controller built from torch tensors (the form gradient ascent returns)
     try:
-        trajs = []
-        sl = list(pomdp.state_list)
-        for k in range(int(c.get("runs", 3))):
-            rng = random.Random(1000 * int(c.get("run_seed", 0)) + k)
-            s0 = sl[k % len(sl)]
-            tr = ctrl.run_on(pomdp, initial_state=s0, max_steps=int(c.get("max_steps", 6)), rng=rng)
-            steps_out = []
-            for st in tr:
-                steps_out.append({"s": st.state, "a": st.action, "ns": st.nextstate,
-                                  "r": fj(st.reward) if st.reward is not None else None, "o": st.observation,
-                                  "ag": fjn(st.agentstate),
-                                  "nag": fjn(st.nextagentstate) if st.nextagentstate is not None else None})
-            trajs.append({"s0": s0, "steps": steps_out})
-        out["runs"] = trajs
+        ctrl_t = StochasticFiniteStateController(pomdp, torch.tensor(pi), torch.tensor(om), torch.tensor(ini))
+        probs = []
+        for h in itertools.product(steps, repeat=2):
+            ag = ctrl_t.initial_agentstate()
+            pr = 1.0
+            for (a, o) in h:
+                pr = pr * float(ctrl_t.action_dist(ag).prob(a))
+                ag = ctrl_t.next_agentstate(ag, a, o)
+            probs.append(fj(pr))
+        out["hist_torch2"] = probs
     except BaseException as e:
         if isinstance(e, (KeyboardInterrupt, SystemExit)):
             raise
-        out["runs"] = {"error": type(e).__name__ + ": " + str(e)[:300]}
+        out["hist_torch2"] = {"error": type(e).__name__ + ": " + str(e)[:300]}
+    # a few real executions (episode convention of run_on)
+    try:
+        out["runs"] = do_runs(pomdp, ctrl, c, len(pi))
+    except BaseException as e:
+        if isinstance(e, (KeyboardInterrupt, SystemExit)):
+            raise
+        import traceback
+        out["runs"] = {"error": type(e).__name__ + ": " + str(e)[:300], "trace": traceback.format_exc()[-800:]}
     return out
 
 
 def run_bpi(c):
+    import functools
     import numpy as np, torch
     import msdm.algorithms.fscboundedpolicyiteration as B
     pomdp = build_pomdp(c["pomdp"])
@@ -170,11 +257,21 @@ def run_bpi(c):
                       "V": fjn(r.state_controller_value.detach().numpy())})
         return r
 
-    base_fn = getattr(B, c.get("improve_fn", "improve_node_matrix_constraint"))
+    # every public node-improvement routine / LP back end
+    form = c.get("improve_fn", "matrix")
+    if form == "matrix":
+        base_fn = B.improve_node_matrix_constraint
+    elif form == "matrix_cvxpy_lp":
+        base_fn = functools.partial(B.improve_node_matrix_constraint, solver=B.Solvers.cvxpy_lp,
+                                    solver_kwargs={"solver": c.get("cvxpy_solver", "CLARABEL")})
+    elif form == "cvxpy":
+        base_fn = functools.partial(B.improve_node_cvxpy, solver=c.get("cvxpy_solver", "CLARABEL"))
+    else:
+        raise ValueError("improve_fn " + form)
 
     def rec_lp(pm, V, node, **kw):
         r = base_fn(pm, V, node, **kw)
-        lps.append({"node": int(node), "epsilon": fj(r.epsilon), "improved": bool(r.improved),
+        lps.append({"node": int(node), "epsilon": fj(np.asarray(r.epsilon, dtype=float).reshape(-1)[0]), "improved": bool(r.improved),
                     "V_in": fjn(V), "pi_row": fjn(r.action_strategy), "om_row": fjn(r.observation_strategy)})
         return r
 
@@ -182,11 +279,22 @@ def run_bpi(c):
     try:
         learner = B.FSCBoundedPolicyIteration(controller_state_count=int(c["nodes"]), iterations=int(c["iterations"]),
                                               seed=int(c["seed"]), improve_node_fn=rec_lp)
+        if c.get("pomdp_prev"):
+            # object reuse: the same learner first trained on another POMDP (same labels, other numbers)
+            learner.train_on(build_pomdp(c["pomdp_prev"]))
+            del evals[:]
+            del lps[:]
         res = learner.train_on(pomdp)
         pol = res.policy
         out["result"] = {"pi": fjn(pol.action_strategy), "om": fjn(pol.observation_strategy),
                          "init": fjn(pol.initial_state_dist), "value": fj(res.value),
                          "V": fjn(res.state_controller_value), "converged": bool(res.converged)}
+        try:
+            out["runs"] = do_runs(pomdp, pol, c, len(pol.action_strategy))
+        except BaseException as e:
+            if isinstance(e, (KeyboardInterrupt, SystemExit)):
+                raise
+            out["runs"] = {"error": type(e).__name__ + ": " + str(e)[:300]}
     except BaseException as e:
         if isinstance(e, (KeyboardInterrupt, SystemExit)):
             raise
@@ -206,9 +314,17 @@ def run_ga(c):
     out = lists(pomdp)
     dtype = getattr(torch, c.get("dtype", "float64"))
     try:
-        res = FSCGradientAscent(controller_state_count=int(c["nodes"]), iterations=int(c["iterations"]),
-                                learning_rate=fl(c.get("learning_rate", "1/10")), seed=int(c["seed"]),
-                                dtype=dtype).train_on(pomdp)
+        kw = {}
+        if c.get("optimizer"):
+            kw["optimizer"] = getattr(torch.optim, c["optimizer"])
+        if c.get("log_iteration_progress"):
+            kw["log_iteration_progress"] = int(c["log_iteration_progress"])
+        learner = FSCGradientAscent(controller_state_count=int(c["nodes"]), iterations=int(c["iterations"]),
+                                    learning_rate=fl(c.get("learning_rate", "1/10")), seed=int(c["seed"]),
+                                    dtype=dtype, **kw)
+        if c.get("pomdp_prev"):
+            learner.train_on(build_pomdp(c["pomdp_prev"]))     # object reuse
+        res = learner.train_on(pomdp)
         pol = res.policy
         def np_(t):
             return t.detach().double().numpy()
@@ -216,6 +332,12 @@ def run_ga(c):
                          "init": fjn(np_(pol.initial_state_dist)),
                          "value": fj(res.value.expected_value.item()),
                          "V": fjn(np_(res.value.state_controller_value))}
+        try:
+            out["runs"] = do_runs(pomdp, pol, c, int(pol.action_strategy.shape[0]))
+        except BaseException as e:
+            if isinstance(e, (KeyboardInterrupt, SystemExit)):
+                raise
+            out["runs"] = {"error": type(e).__name__ + ": " + str(e)[:300]}
     except BaseException as e:
         if isinstance(e, (KeyboardInterrupt, SystemExit)):
             raise
